@@ -9,6 +9,7 @@ import (
 	"sort"
 	"strconv"
 	"strings"
+	"syscall"
 	"testing"
 	"time"
 )
@@ -721,10 +722,26 @@ func (c01) Eval(t *testing.T, c *Case, dec func(int) *Decider) *Outcome {
 	// parsing, signal set-up, deferred rollback and release), which the simulated shell
 	// replica stands in for. Without faults the run is a function of program and files:
 	// exit code and directory must equal the simulated ones.
-	if bin := os.Getenv("VERIF_CSVQ_BIN"); bin != "" && len(o.Violations) == 0 && len(sc.Cancels) == 0 && !sc.Knobs.RelRepo && meta.Ending != "cancel" && Sub(c.Seed, "c01-real").Bool(0.06) {
+	if bin := os.Getenv("VERIF_CSVQ_BIN"); bin != "" && len(o.Violations) == 0 && len(sc.Cancels) == 0 && !sc.Knobs.RelRepo && meta.Ending != "cancel" && Sub(c.Seed, "c01-real").Bool(c01RealShare()) {
 		dir, code, stderr, err := realPlainRun(bin, sc)
 		o.RealProc++
+		if err == errRealTimeout {
+			// once more: a process that hangs twice in a row hangs; a single stall on a
+			// loaded machine is noted and nothing else
+			first := stderr
+			dir, code, stderr, err = realPlainRun(bin, sc)
+			o.RealProc++
+			if err == errRealTimeout {
+				o.viol(prop, "termination", "real-process-hang", fmt.Sprintf("the real csvq binary did not end the procedure within 30 s, twice in a row (the simulated process ended with exit %d); goroutines after SIGABRT: %s", p.ExitCode, tail([]string{stderr}, 1)[0][max(0, len(stderr)-3000):]))
+				err = nil
+				dir = nil
+			} else {
+				o.Stats.probe("real-run-stalled-once")
+				o.Notes = append(o.Notes, "one real-process run stalled for 30 s and ended normally when repeated; goroutines after SIGABRT: "+first[max(0, len(first)-1500):])
+			}
+		}
 		switch {
+		case dir == nil && err == nil:
 		case err != nil:
 			o.Infra = append(o.Infra, "real-process tier: "+err.Error())
 		case code != p.ExitCode:
@@ -829,7 +846,26 @@ func realPlainRun(bin string, sc *Scenario) (DirState, int, string, error) {
 		}
 		return SnapshotDir(dir), code, stderr.String(), nil
 	case <-time.After(30 * time.Second):
-		_ = cmd.Process.Kill()
-		return nil, 0, stderr.String(), fmt.Errorf("real process did not terminate within 30 s")
+		// SIGABRT is not among the signals csvq handles: the Go runtime prints every goroutine's stack
+		_ = cmd.Process.Signal(syscall.SIGABRT)
+		select {
+		case <-done:
+		case <-time.After(3 * time.Second):
+			_ = cmd.Process.Kill()
+		}
+		return nil, 0, stderr.String(), errRealTimeout
 	}
+}
+
+var errRealTimeout = fmt.Errorf("real process did not terminate within 30 s")
+
+// c01RealShare: the share of fault-free procedures that also run in the real
+// binary (VERIF_C01_REAL_P overrides it for experiments).
+func c01RealShare() float64 {
+	if v := os.Getenv("VERIF_C01_REAL_P"); v != "" {
+		if f, err := strconv.ParseFloat(v, 64); err == nil {
+			return f
+		}
+	}
+	return 0.06
 }
